@@ -212,6 +212,8 @@ func C02(c *core.Ctx) {
 	rateAmountFromBase(c, "C02-R5")
 	c02MapEquality(c)
 	c02AliasedWorkingValue(c)
+	c02EveryLineMapped(c)
+	c02WorkingPrecision(c)
 }
 
 func c02Matching(c *core.Ctx) {
@@ -1069,4 +1071,128 @@ func c02AliasedWorkingValue(c *core.Ctx) {
 	if n == 0 {
 		c.Note("C02-R7: no row member is given the address of a working variable in package tax")
 	}
+}
+
+// c02EveryLineMapped — C02-R8: every taxable line reaches the tax summary: in
+// package tax, a loop over the calculator's []TaxableLine that builds the
+// internal line list stores (or appends) an entry for every element — a line
+// that is left out because its total is zero or it has no taxes never has its
+// rate resolved and its (empty) group is missing from the summary.
+func c02EveryLineMapped(c *core.Ctx) {
+	p := c.P
+	c.Rule("C02-R8", "every taxable line is mapped into the tax calculation", 1)
+	pk := p.Pkg("tax")
+	tl := p.Named("tax", "TaxableLine")
+	if pk == nil || tl == nil {
+		c.Ob("C02-R8", "UNRESOLVED:tax.TaxableLine", token.NoPos, false, "type not found")
+		return
+	}
+	n := 0
+	for _, fd := range p.Funcs(pk) {
+		if p.IsTestFile(fd.Decl.Pos()) || fd.Decl.Body == nil {
+			continue
+		}
+		info := fd.Pkg.TypesInfo
+		ast.Inspect(fd.Decl.Body, func(m ast.Node) bool {
+			rs, ok := m.(*ast.RangeStmt)
+			if !ok {
+				return true
+			}
+			sl, ok := info.TypeOf(rs.X).Underlying().(*types.Slice)
+			if !ok || !types.Identical(sl.Elem(), tl) {
+				return true
+			}
+			// the store that maps the element: X[i] = … or X = append(X, …)
+			var store ast.Stmt
+			ast.Inspect(rs.Body, func(k ast.Node) bool {
+				as, ok := k.(*ast.AssignStmt)
+				if !ok || len(as.Lhs) != 1 || store != nil {
+					return true
+				}
+				if _, isIdx := ast.Unparen(as.Lhs[0]).(*ast.IndexExpr); isIdx {
+					store = as
+				}
+				if call, isCall := ast.Unparen(as.Rhs[0]).(*ast.CallExpr); isCall {
+					if id, isId := call.Fun.(*ast.Ident); isId && id.Name == "append" && len(call.Args) >= 2 && core.VarOf(info, call.Args[0]) == core.VarOf(info, as.Lhs[0]) && core.VarOf(info, as.Lhs[0]) != nil {
+						store = as
+					}
+				}
+				return true
+			})
+			n++
+			key := fmt.Sprintf("%s#lines-mapped%d", fd.Name(), n)
+			if store == nil {
+				return true // a loop that only reads the lines
+			}
+			why := everyIteration(p, info, fd.Decl.Body, store, func(ast.Expr, bool) bool { return false })
+			c.Ob("C02-R8", key, store.Pos(), why == "", "not every taxable line is taken into the tax calculation: "+why+" — a line that is left out never has its rate key resolved (its combo keeps a nil percent) and its group is missing from the summary")
+			return true
+		})
+	}
+	if n == 0 {
+		c.Ob("C02-R8", "tax#lines-mapped", token.NoPos, false, "NOT FOUND: no loop over []tax.TaxableLine in package tax")
+	}
+}
+
+// c02WorkingPrecision — C02-R9: the working values of the calculation keep
+// their precision: an unexported member of a struct of package tax or bill (the
+// internal line total, the precise category amount, the precise sum) is never
+// assigned the result of a precision-lowering call (Rescale, RescaleDown,
+// Downscale, RescaleRange). Presentation rounding lowers the exported,
+// presented members only.
+func c02WorkingPrecision(c *core.Ctx) {
+	p := c.P
+	c.Rule("C02-R9", "working values (unexported members) are never lowered in precision", 0)
+	n, bad := 0, 0
+	for _, rel := range []string{"tax", "bill", "pay"} {
+		pk := p.Pkg(rel)
+		if pk == nil {
+			continue
+		}
+		for _, fd := range p.Funcs(pk) {
+			if p.IsTestFile(fd.Decl.Pos()) || fd.Decl.Body == nil {
+				continue
+			}
+			info := fd.Pkg.TypesInfo
+			k := 0
+			ast.Inspect(fd.Decl.Body, func(m ast.Node) bool {
+				as, ok := m.(*ast.AssignStmt)
+				if !ok || len(as.Lhs) != len(as.Rhs) {
+					return true
+				}
+				for i, l := range as.Lhs {
+					l = ast.Unparen(l)
+					if st, isStar := l.(*ast.StarExpr); isStar {
+						l = ast.Unparen(st.X)
+					}
+					f := core.FieldOf(info, l)
+					if f == nil || f.Exported() || !isAmountLike(f.Type()) {
+						continue
+					}
+					n++
+					call, isCall := ast.Unparen(as.Rhs[i]).(*ast.CallExpr)
+					if !isCall {
+						continue
+					}
+					fn := core.Callee(info, call)
+					if isAmountMethod(fn, "Rescale") || isAmountMethod(fn, "RescaleDown") || isAmountMethod(fn, "Downscale") || isAmountMethod(fn, "RescaleRange") {
+						k++
+						bad++
+						c.Ob("C02-R9", fmt.Sprintf("%s#%s%d", fd.Name(), f.Name(), k), as.Pos(), false, fmt.Sprintf("%s assigns the working value %s from %s: the value the sums and percentages are computed from is rounded before they are, so a group's base is no longer the sum of its lines' totals and its amount not the percentage of the true base", fd.Name(), types.ExprString(as.Lhs[i]), types.ExprString(as.Rhs[i])))
+					}
+				}
+				return true
+			})
+		}
+	}
+	c.Extra("C02-R9_working_value_assignments", n)
+	c.Ob("C02-R9", "working-values#precision-kept", token.NoPos, bad == 0, fmt.Sprintf("%d working values are lowered in precision", bad))
+}
+
+func isAmountLike(t types.Type) bool {
+	if pt, ok := t.(*types.Pointer); ok {
+		t = pt.Elem()
+	}
+	s := core.TypeString(t)
+	return s == "num.Amount" || s == "num.Percentage"
 }
